@@ -154,8 +154,9 @@ fn gen_mapping(rng: &mut Rng, max_pairs: usize, stream: Stream, st: &mut Stats) 
         let risky = f2_risky(&v);
         match stream {
             Stream::Main if risky => {
-                st.count("gen.rejected_f2_risky");
-                continue;
+                // valid since the fix of F-2; counted to show the region is exercised
+                st.count("gen.main_with_delta_ge_32768");
+                return v;
             }
             Stream::F2 if !risky => continue,
             _ => return v,
@@ -973,12 +974,6 @@ fn main() {
             }
             input = m.into_iter().collect();
         }
-        if f2_risky(&input) {
-            input.retain(|(c, g)| !(*c <= 0xFFFF && (*g as i64 - *c as i64) >= 32768));
-            if input.is_empty() {
-                continue;
-            }
-        }
         rng.shuffle(&mut input);
         let max_gid = input.iter().map(|p| p.1).max().unwrap_or(1);
         let out = build(&input, (max_gid + 1).min(65535) as u16);
@@ -991,7 +986,8 @@ fn main() {
             }
             Outcome::Conflict(_) => report(&mut st, json!({"key": format!("spurious-conflict:{}", key_of(&input))})),
             Outcome::Panic(p) | Outcome::DumpPanic(p) => {
-                report(&mut st, json!({"key": format!("build-panic:{}", key_of(&input)), "pairs": input.len(), "panic": p}))
+                let key = if f2_risky(&input) && !p.contains("cmap4 overflow") { "F-2:cmap4-delta-i16-panic".to_string() } else { format!("build-panic:{}", key_of(&input)) };
+                report(&mut st, json!({"key": key, "pairs": input.len(), "panic": p}))
             }
         }
         st.nontrivial(&format!("B {:?}", input));
@@ -1015,6 +1011,33 @@ fn main() {
             Outcome::Conflict(c) => report(&mut st, json!({"key": "probe-F-2-conflict", "c": c})),
         }
         cw.push(format!("CBuild {} {}", coq_pairs(&input), impl_outcome_term(&input, &build(&input, 40001), &mut rng)));
+        // former finding charmap-mappings-drops-U+10FFFF: must now enumerate the pair (oracle_built reports under that key)
+        for input in [vec![(0x10FFFFu32, 5u32)], vec![(0x41, 1), (0x10FFFE, 7), (0x10FFFF, 8)]] {
+            st.evaluations += 1;
+            match build(&input, 9) {
+                Outcome::Built(b) => {
+                    st.count("probe.U+10FFFF.built");
+                    oracle_built(&input, &b, &mut st, true);
+                }
+                _ => report(&mut st, json!({"key": "probe-U+10FFFF-not-built", "input": input})),
+            }
+            cw.push(format!("CBuild {} {}", coq_pairs(&input), impl_outcome_term(&input, &build(&input, 9), &mut rng)));
+        }
+        // more fixed inputs for the former F-2: delta exactly 32768, 65535, a run, and next to a range-offset segment
+        for input in [vec![(0u32, 32768u32)], vec![(0, 65535)], vec![(1, 65535), (2, 1)], vec![(10, 40010), (11, 40011), (12, 40012)],
+                      vec![(10, 40012), (11, 40011), (12, 40010), (13, 50000)]] {
+            st.evaluations += 1;
+            let ng = (input.iter().map(|p| p.1).max().unwrap() + 1).min(65535) as u16;
+            match build(&input, ng) {
+                Outcome::Built(b) => {
+                    st.count("probe.F-2.corpus_built");
+                    oracle_built(&input, &b, &mut st, true);
+                }
+                Outcome::Panic(p) | Outcome::DumpPanic(p) => report(&mut st, json!({"key": "F-2:cmap4-delta-i16-panic", "input": input, "panic": p})),
+                Outcome::Conflict(c) => report(&mut st, json!({"key": "probe-F-2-conflict", "c": c})),
+            }
+            cw.push(format!("CBuild {} {}", coq_pairs(&input), impl_outcome_term(&input, &build(&input, ng), &mut rng)));
+        }
         // F-9: 9000 isolated BMP code points (format 4 would need 9001 segments = 72 024 bytes)
         let input: Pairs = (0..9000u32).map(|i| (0x100 + 3 * i, 1 + i)).collect();
         st.evaluations += 1;
